@@ -156,6 +156,20 @@ def c04(run):
     _lzh_machine(run, [(314, 330, "lcg", 300), (314, 400, "zero", 300), (314, 400, "ff", 300), (314, 700, "aa", 800)], replay=False)
     # ... and its instances at the real constants: runs of equal literals across the capacity
     run.scen("MC_LzhRun", {"NSym": 314, "MaxCount": 65535})
+    # the drain interface as the code structures it (ring buffer + fill threshold), scaled constants: the queue never overruns for the
+    # code's threshold formula MaxFill = W - M - 2 nor for the largest safe one, and TLC must find the overrun for W - M + 1 (anti-vacuity)
+    drain_inv = ("NoOverrun", "RingHoldsUndelivered", "FillLevelIsWaiting", "GetDataContract", "IBufContract", "DeliveredInOrder")
+    for W, M in ((8, 3), (16, 6)) if run.thorough else ((8, 3),):
+        for mf, must_hold in ((W - M - 2, True), (W - M, True), (W - M + 1, False)):
+            cfg = os.path.join(vlib.scratch(), f"LzhDrain_{W}_{mf}.cfg")
+            open(cfg, "w").write(vlib.cfg_text({"W": W, "M": M, "MaxFill": mf, "MaxCodes": 6 if W == 8 else 5, "Sizes": "{1, 2, %d, %d}" % (M + 2, W + 1)}, invariants=drain_inv))
+            r = vlib.run_tlc("LzhDrain", cfg, tags=(), workers=8, timeout=1500)
+            if must_hold and (r["violation"] or not r["ok"]):
+                raise MachineryError("LzhDrain: the drain design violates its contract for a safe threshold:\n" + r["stdout"][-1500:])
+            if not must_hold and not r["violation"]:
+                raise MachineryError("LzhDrain: vacuity - the overrun for a threshold of W - M + 1 was not found")
+            run.states += r.get("distinct", 0); run.transitions += r.get("generated", 0)
+            run.part(f"LzhDrain W={W} M={M} MaxFill={mf}", holds=must_hold, tlc_states=r.get("distinct", 0))
     if run.thorough:
         # inputs that drive the real decoder across its capacity, decoded code by code by the specification (minutes of TLC time)
         _lzh_machine(run, [(314, 65535, "zero", 120000), (314, 65535, "ff", 140000), (314, 65535, "lcg", 130000), (314, 65535, "aa", 130000)])
@@ -232,7 +246,7 @@ def c11(run):
 # ======================================================================================================
 # streams
 
-STREAM_CONTENTS = {"C1": [2, 0, 65, 0], "C2": [255, 255, 255, 255], "C3": [1, 66, 0, 128], "C4": []}
+STREAM_CONTENTS = {"C1": [2, 0, 65, 0], "C2": [255, 255, 255, 255], "C3": [1, 66, 0, 128], "C4": [], "C5": [3, 0, 0, 0, 7, 8, 9], "C6": [9, 8, 7, 6, 5, 4, 3, 2, 1]}
 SLICE_OPS = ("SliceAt", "SliceHere", "Drop")
 
 
@@ -256,7 +270,7 @@ def _streams(run):
     harness = run.harness("stream_walk")
     work = os.path.join(vlib.scratch(), "sw")
     os.makedirs(work, exist_ok=True)
-    contents = list(STREAM_CONTENTS) if run.thorough or pid == "C12" else ["C1", "C3", "C4"]
+    contents = (["C1", "C2", "C3", "C4", "C6"] + (["C5"] if run.thorough else [])) if pid == "C12" else (["C1", "C2", "C3", "C4"] if run.thorough else ["C1", "C3", "C4"])
     jobs = []
     for cname in contents:
         g = vlib.generate("MC_StreamReader", {"MaxStreams": max_streams}, invariants=("PosInBounds", "Confined"), properties=("Independence",),
